@@ -34,6 +34,10 @@ const WEIGHTS: [Option<i32>; 7] = [None, Some(0), Some(1), Some(100), Some(300),
 type B = Rc<RefCell<Backend>>;
 
 fn addr(n: u64) -> SocketAddr {
+    if n == 5 {
+        // one IPv6 backend: the affinity hashers (HRW / Maglev) hash V4 and V6 addresses differently
+        return SocketAddr::new(IpAddr::V6(std::net::Ipv6Addr::new(0xfd00, 0, 0, 0, 0, 0, 0, 6)), 8005);
+    }
     SocketAddr::new(IpAddr::V4(Ipv4Addr::new(10, 0, 0, n as u8 + 1)), 8000 + n as u16)
 }
 fn addr_no(a: &SocketAddr) -> u64 {
@@ -136,13 +140,20 @@ fn mag_dump(p: &dyn LoadBalancingAlgorithm) -> MagDump {
         let j = s[i..].find(',')? + i;
         s[i..j].trim().parse::<usize>().ok()
     })();
-    let (Some(size), Some(t), Some(a)) = (size, grab("table: ["), grab("backend_addrs: [")) else {
+    // IPv6 socket addresses print with brackets: the address list ends at "], round_robin"
+    let addrs_txt = (|| {
+        let tag = "backend_addrs: [";
+        let i = s.find(tag)? + tag.len();
+        let j = s[i..].find("], round_robin").or_else(|| s[i..].rfind(']'))? + i;
+        Some(&s[i..j])
+    })();
+    let (Some(size), Some(t), Some(a)) = (size, grab("table: ["), addrs_txt) else {
         return MagDump::default();
     };
     let table: Option<Vec<usize>> =
         t.split(',').map(|x| x.trim()).filter(|x| !x.is_empty()).map(|x| x.parse().ok()).collect();
     let addrs: Option<Vec<u64>> = a
-        .split(',')
+        .split(", ")
         .map(|x| x.trim())
         .filter(|x| !x.is_empty())
         .map(|x| x.parse::<SocketAddr>().ok().map(|sa| addr_no(&sa)))
